@@ -67,6 +67,7 @@ def to_model(doc):
             if a['t'] == 'seq':
                 a = M([[i, c] for i, c in enumerate(a['items'])])
             a['del'] = True
+            a['fnode'] = True
             for f in ('prio', 'md', 'unsafe', 'new'):
                 if n.get(f) is not None:
                     a[f] = n[f]
